@@ -84,7 +84,7 @@ func runC15(c *core.Ctx) {
 	}
 	if f := fn(c, "C15-R2", runnerPkg+".(*BaseRunner).decide"); f != nil {
 		for _, s := range callsIn(f, cN+"Controller.StartNewInstance") {
-			n := c.E.Analyze(s.Fn).D.D(s.Instr.Common().Args[2]).String()
+			n := s.Arg(c, 2).String()
 			c.Decide(n == "p3.Duty.Slot", "C15-R2", "decide|instance height = duty slot", c.P.Pos(s.Instr.Pos()), n, "the consensus height is "+n+", not the duty's slot: slot-based refusal of old duties would not apply")
 		}
 	}
